@@ -134,21 +134,35 @@ ProjMatch(m) == <<m.name, IF m.hasF THEN m.f.rs ELSE -1, IF m.hasF THEN m.f.re E
 ProjMatches(ms) == [j \in 1..Len(ms) |-> ProjMatch(ms[j])]
 ObsMatches(m) == [j \in 1..Len(m) |-> <<m[j][1], m[j][2], m[j][3], m[j][4], m[j][5]>>]
 
+\* one mate against one adapter list: is it the choice of matches or their application that deviates?
+MateBlame(cfg, table, ads, p, om, hasm, s, q) ==
+  IF ads = <<>> THEN (IF p.seq # s \/ p.qual # q THEN {"action"} ELSE {})
+  ELSE IF NeedsCut1(table, ads, cfg.action, cfg.times, p) # {} THEN {}
+  ELSE LET c == Cut1(table, ads, cfg.action, cfg.times, p) IN
+       IF hasm /\ ObsMatches(om) # ProjMatches(c[2]) THEN {"choice"}
+       ELSE IF c[1].seq # s \/ c[1].qual # q THEN (IF hasm THEN {"action"} ELSE {"adapter"}) ELSE {}
+
 AdapterBlame(cfg, table, p1, p2, st) ==
   IF cfg.paired
   THEN IF NeedsPE(cfg, table, p1, p2) # {} THEN {}
-       ELSE LET x == StagePE(cfg, table, p1, p2) IN
-            IF cfg.revcomp /\ st.isrc >= 0 /\ (st.isrc = 1) # x.isrc THEN {"orient"}
-            ELSE IF x.r1.seq # st.s1 \/ x.r1.qual # st.q1 \/ x.r2.seq # st.s2 \/ x.r2.qual # st.q2 THEN {"adapter"} ELSE {}
+       ELSE LET x == StagePE(cfg, table, p1, p2)
+                differs == x.r1.seq # st.s1 \/ x.r1.qual # st.q1 \/ x.r2.seq # st.s2 \/ x.r2.qual # st.q2
+                orient == IF cfg.revcomp /\ st.isrc >= 0 /\ (st.isrc = 1) # x.isrc THEN {"orient"} ELSE {}
+            IN IF cfg.pairads
+               THEN IF st.hasm /\ (ObsMatches(st.m1) # ProjMatches(x.ms1) \/ ObsMatches(st.m2) # ProjMatches(x.ms2)) THEN {"choice"}
+                    ELSE IF differs THEN (IF st.hasm THEN {"action"} ELSE {"adapter"}) ELSE {}
+               ELSE IF cfg.revcomp /\ cfg.action = "lowercase"
+               THEN orient \cup (IF orient = {} /\ differs THEN {"adapter"} ELSE {})       \* (both mates are upper-cased first: not split up)
+               ELSE LET sw == st.isrc = 1
+                        i1 == IF sw THEN p2 ELSE p1
+                        i2 == IF sw THEN p1 ELSE p2
+                    IN orient \cup MateBlame(cfg, table, cfg.ads1, i1, st.m1, st.hasm, st.s1, st.q1)
+                              \cup MateBlame(cfg, table, cfg.ads2, i2, st.m2, st.hasm, st.s2, st.q2)
   ELSE LET ori == IF st.isrc = 1 THEN RevCompRead(p1) ELSE p1 IN
-       IF cfg.ads1 = <<>> \/ NeedsSE(cfg, table, p1) # {} \/ NeedsCut1(table, cfg.ads1, cfg.action, cfg.times, ori) # {} THEN {}
-       ELSE LET c1 == Cut1(table, cfg.ads1, cfg.action, cfg.times, ori)
-                decision == IF cfg.revcomp THEN CutRevComp(table, cfg.ads1, cfg.action, cfg.times, p1)[3] ELSE FALSE
-                choiceOK == ~st.hasm \/ ObsMatches(st.m1) = ProjMatches(c1[2])
-                actionOK == c1[1].seq = st.s1 /\ c1[1].qual = st.q1
+       IF cfg.ads1 = <<>> \/ NeedsSE(cfg, table, p1) # {} THEN {}
+       ELSE LET decision == IF cfg.revcomp THEN CutRevComp(table, cfg.ads1, cfg.action, cfg.times, p1)[3] ELSE FALSE
             IN (IF cfg.revcomp /\ st.isrc >= 0 /\ (st.isrc = 1) # decision THEN {"orient"} ELSE {})
-               \cup (IF ~choiceOK THEN {"choice"}
-                     ELSE IF ~actionOK THEN (IF st.hasm THEN {"action"} ELSE {"adapter"}) ELSE {})
+               \cup MateBlame(cfg, table, cfg.ads1, ori, st.m1, st.hasm, st.s1, st.q1)
 
 RECURSIVE BlameFrom(_, _, _, _, _, _)
 BlameFrom(cfg, table, chain, i, p1, p2) ==
@@ -166,6 +180,17 @@ BlameFrom(cfg, table, chain, i, p1, p2) ==
 Blame(e, k) ==
   LET rd == e.reads[k] IN
   BlameFrom(e.cfg, rd.table, rd.obs.chain, 1, Rd0(rd.in1.seq, rd.in1.qual), Rd0(rd.in2.seq, rd.in2.qual))
+\* C10, directly on the recorded chain: the modifiers act in the documented order (cut, NextSeq, quality, adapters,
+\* poly-A, --length, --trim-n, then the name steps and zero-capping); labels the recorder does not know are skipped
+StageRank(lab) ==
+  CASE lab = "cut" -> 1 [] lab = "nextseq" -> 2 [] lab = "qtrim" -> 3 [] lab = "adapter" -> 4 [] lab = "polya" -> 5
+    [] lab = "shorten" -> 6 [] lab = "trimn" -> 7 [] lab = "name" -> 8 [] lab = "zerocap" -> 8 [] OTHER -> 0
+RanksOf(chain, second) ==
+  LET labs == [i \in 1..Len(chain) |-> StageRank(IF second THEN chain[i].l2 ELSE chain[i].l1)] IN
+  SelectSeq(labs, LAMBDA x : x > 0)
+NonDecreasing(s) == \A i \in 1..(Len(s) - 1) : s[i] <= s[i + 1]
+OrderOK(cfg, chain) == NonDecreasing(RanksOf(chain, FALSE)) /\ (cfg.paired => NonDecreasing(RanksOf(chain, TRUE)))
+
 PrintBlame(e, k) == \A b \in Blame(e, k) : PrintT(<<"BLAME", e.id, k, b>>)
 
 \* ---- one read ----
@@ -178,6 +203,7 @@ CheckRead(e, k) ==
      ELSE LET M == Run(cfg, rd.table, rd.in1, rd.in2)
               ob == rd.obs
           IN /\ PrintBlame(e, k)
+             /\ RepK(e.id, "Stages.DocumentedOrder", k, OrderOK(cfg, ob.chain))
              /\ RepK(e.id, "Dest", k, ob.dest = M.dest)
              /\ RepK(e.id, "Fate", k, ob.dest # "none" \/ ~CountsAsWritten(cfg, M.fate))
              /\ (ob.dest # "none" /\ M.dest # "none") =>
